@@ -33,6 +33,19 @@ Theorem shl_is_exact_shift : forall x c, 0 <= c -> c <= usize_max \/ x = 0 -> sh
 Proof. exact shl_clamp_invisible. Qed.
 Print Assumptions shl_is_exact_shift.
 
+(* the computable power used by eval_spec is the mathematical power *)
+Theorem zpow_is_pow : forall a b, 0 <= b -> zpow a b = a ^ b.
+Proof. exact zpow_eq. Qed.
+Print Assumptions zpow_is_pow.
+
+Theorem zshr_is_shiftr : forall x n, zshr x n = Z.shiftr x n.
+Proof. exact zshr_eq. Qed.
+Print Assumptions zshr_is_shiftr.
+
+Theorem zshl_is_shiftl : forall x n, zshl x n = Z.shiftl x n.
+Proof. exact zshl_eq. Qed.
+Print Assumptions zshl_is_shiftl.
+
 (* the regenerated small-integer bounds fit the machine word and are symmetric (needed by \ and abs) *)
 Theorem fixnum_bounds_ok : i64_min <= fix_min /\ fix_max <= i64_max /\ fix_min = - fix_max - 1.
 Proof. exact (conj (proj1 fix_bounds_in_i64) (conj (proj2 fix_bounds_in_i64) fix_bounds_symmetric)). Qed.
